@@ -470,7 +470,7 @@ pub fn run(args: &Args) -> i32 {
         let v = check_case(&case).violations;
         return finish(args, ev, v, &|c| check_case(c).violations);
     }
-    let ms = crate::props::families::members(&["fixtures", "struct", "funcs", "locals", "names", "idshift", "leb", "reach"], args, &mut ev);
+    let ms = crate::props::families::members(&["fixtures", "struct", "funcs", "locals", "names", "idshift", "leb", "reach", "minimal"], args, &mut ev);
     let mut cases = vec![];
     for m in &ms {
         for gc in [false, true] {
